@@ -38,14 +38,14 @@ def rp_cases():
     return [{"op": "rp_integration", "fw": fw, "pert": p} for fw in ("flask", "django", "starlette") for p in RP_PERTS]
 
 
-def impl_rp(c):
+def rp_setup(c):
+    """(claims, key index, expected nonce, leeway) of an rp_integration case"""
     import rpclient as rc
-    ms.install_clock(); CLOCK.now = 1_000_000
-    now = int(CLOCK())
+    now = 1_000_000
     X = rc.ISSUER
     claims = {"iss": X, "sub": "u", "aud": "cid", "exp": now + 600, "iat": now, "nonce": "n", "at_hash": hh("HS256", "at")}
     p = c["pert"]
-    key, nonce, leeway = None, "n", None
+    other_key, nonce, leeway = False, "n", None
     if p == "iss+/": claims["iss"] = X + "/"
     elif p == "iss-1": claims["iss"] = X[:-1]
     elif p == "iss-substring": claims["iss"] = X[8:]
@@ -60,11 +60,16 @@ def impl_rp(c):
     elif p == "nonce-none-expected": nonce = None
     elif p == "expired": claims["exp"] = now - 200
     elif p == "expired-within-leeway": claims["exp"] = now - 30; leeway = 60
-    elif p == "other-key": key = rc.keys()[1]
+    elif p == "other-key": other_key = True
     elif p == "at_hash-wrong": claims["at_hash"] = hh("HS256", "zz")
-    token = {"access_token": "at", "token_type": "bearer"}
-    if p != "no-id-token":
-        token["id_token"] = rc.id_token(claims, key)
+    return claims, other_key, nonce, leeway
+
+
+def impl_rp(c):
+    import rpclient as rc
+    ms.install_clock(); CLOCK.now = 1_000_000
+    claims, other_key, nonce, leeway = rp_setup(c)
+    token = {"access_token": "at", "token_type": "bearer", "id_token": rc.id_token(claims, rc.keys()[1] if other_key else None)}
     return rc.parse(c["fw"], token, nonce, leeway)
 
 
@@ -269,7 +274,17 @@ def enc(v):
 def model_line(c):
     op = c["op"]
     if op == "rp_integration":
-        return None
+        if c["pert"] == "other-key":
+            return None          # signature level: C01
+        import rpclient as rc
+        from props.c04 import q4
+        claims, _, nonce, leeway = rp_setup(c)
+        # what parse_id_token configures: iss ∈ [metadata issuer]; nonce / client_id / access_token as parameters; CodeIDToken (an access token came along); leeway 120
+        params = {"client_id": "cid", "access_token": "at"}
+        if nonce is not None:
+            params["nonce"] = nonce
+        return {"op": "validate", "cls": "code", "alg": "HS256", "claims": [[k, enc(v)] for k, v in claims.items()], "options": [["iss", {"values": [rc.ISSUER]}]],
+                "params": params, "now": q4(1_000_000), "leeway": q4(120 if leeway is None else leeway)}
     if op == "half_hash":
         return {"op": op, "alg": c["alg"], "s": c["s"].encode().hex()}
     if op == "generate":
@@ -298,6 +313,8 @@ def model_line(c):
 
 
 def project(c, out):
+    if c["op"] == "rp_integration":
+        return {"ok": True} if out.get("accepted") else out.get("canon", out)
     if c["op"] in ("half_hash", "generate"):
         return out
     if c["op"] in ("validate", "e2e"):
